@@ -177,7 +177,8 @@ fn run_likes(a: &Args, mask: bool) -> Args {
         let harr = build(layout, &hs, &hv, extra);
         // the pattern side: same value type; for dictionary haystacks alternately a plain or a dictionary pattern
         let pl = if layout >= 3 && (n + m) % 2 == 0 { layout } else { plain_layout(layout) };
-        let parr = build(pl, &ps, &pv, false);
+        // a dictionary scalar pattern gets an unused value in front, so that its single key is not 0
+        let parr = build(pl, &ps, &pv, mode == 0);
         for k in &kernels {
             let r = match mode {
                 0 => k(&harr, &Scalar::new(parr.clone())),
